@@ -329,6 +329,10 @@ def check_C14(ctx):
             if rng.random() < 0.6:
                 c["policy"] = rng.choice([0, 1, 2])
             c["longdesc"] = rng.choice(["", "long description of " + c["name"].split()[0]])
+            # a command may declare an option of its own named h or help: the help token still asks for help
+            taken = set(n for d in c["decls"] if d["t"] == "opt" for n in d["name"].split())
+            if rng.random() < 0.25 and not taken & {"h", "help"}:
+                c["decls"].append(gen.mkopt("bool", rng.choice(["h", "help", "h help", "help h"]), **{"def": ["false"]}))
         # the version flag is declared before or after the root's own options
         version = {"name": "V version", "text": "v1.2", "last": rng.random() < 0.5} if rng.random() < 0.5 else None
         argv = flat_argv(path, per_level)
@@ -720,6 +724,9 @@ def check_C16(ctx):
                 decls[-1]["def"] = [""]
             if decls[-1]["kind"] == "int":
                 decls[-1]["def"] = ["0"]
+            # an argument may be backed by the environment too (struct form with EnvVar)
+            if rng.random() < 0.35:
+                decls[-1]["env"] = "VA_" + n
         rng.shuffle(decls)
         opts = [d for d in decls if d["t"] == "opt"]
         args = [d for d in decls if d["t"] == "arg"]
@@ -728,7 +735,13 @@ def check_C16(ctx):
         envnames = [d["env"] for d in decls if d.get("env")]
         for _ in range(4):
             env = {e: "ev" for e in envnames if rng.random() < 0.5}
+            for d in decls:
+                if d.get("env") in env and d["kind"] in ("int", "ints"):
+                    env[d["env"]] = "7"
             argv, _ = gen.gen_argv(rng, ast, decls, [d["name"] for d in decls if d.get("env") in env], 0.4)
+            # fewer positionals than declared arguments, too
+            if args and rng.random() < 0.3:
+                argv = [t for t in argv if t.startswith("-")] + [t for t in argv if not t.startswith("-")][:rng.randint(0, len(args) - 1)]
             pol = rng.choice([0, 0, 1, 2])
             r1 = gen.mkcmd("app", decls=copy.deepcopy(decls), spec="", policy=pol)
             r2 = gen.mkcmd("app", decls=copy.deepcopy(decls), spec=explicit, policy=pol)
@@ -799,7 +812,14 @@ def check_C18(ctx):
                     if rng.random() < 0.7:
                         n = rng.choice(anames[:3])
                 decls.append(gen.mkarg("strings", n))
-        exp = expected_decl_panic(decls)
+        # the version flag is one more option declaration (a bool), made before or after the others
+        version = None
+        combined = decls
+        if rng.random() < 0.3:
+            version = {"name": " ".join(rng.sample(onames, rng.randint(1, 2))), "text": "v1", "last": rng.random() < 0.6}
+            vd = gen.mkopt("bool", version["name"])
+            combined = decls + [vd] if version["last"] else [vd] + decls
+        exp = expected_decl_panic(combined)
         # which variable each name sets: address one option by one of its names
         argv = []
         opts = [d for d in decls if d["t"] == "opt"]
@@ -811,7 +831,7 @@ def check_C18(ctx):
         if exp is None:
             args = [d for d in decls if d["t"] == "arg"]
             root["spec"] = ("[OPTIONS] " if opts else "") + " ".join("[%s]" % a["name"] for a in args)
-        cases.append({"op": "run", "env": {}, "version": None, "root": root, "argv": argv, "_exp": exp})
+        cases.append({"op": "run", "env": {}, "version": version, "root": root, "argv": argv, "_exp": exp, "_all": combined})
     res = correspond(ctx, cases, ["outcome", "values"], "declaration sequences")
     stats = {"panics": 0, "clean": 0}
     for c in cases:
@@ -841,7 +861,8 @@ def check_C18(ctx):
             want = ("panic", "decl:%s:%s" % (cls, nm if simple else "?"))
             if a["outcome"] != want:
                 ctx.violation("declaration", "declarations %r: expected %r at declaration %d, got %r"
-                              % ([d["name"] for d in c["root"]["decls"]], want, i, a["outcome"]), case=c)
+                              % ([d["name"] for d in c["_all"]], want, i, a["outcome"]), case=c)
+    stats["with_version"] = sum(1 for c in cases if c["version"])
     ctx.stream("declaration sequences", 0, **stats)
     ctx.sample({"decls": ["f force", "o f"], "expected": "panic duplicate option name -f"})
     return ("random sequences of 1-6 declarations with option name lists drawn from a pool that forces collisions "
